@@ -881,6 +881,12 @@ def stream_subst(ctx, batch):
     for e in sorted(set(ENCODINGS + valid_target_names()["all"] + PROP_PYTHON_SPECIFIC + live + ["IDNA", "", "utf-8 ", "x", "\\1", "\\g<1>"])):
         real = el.CharsetMetaAttributeValue("old").substitute_encoding(e)
         want = "" if e in PROP_PYTHON_SPECIFIC else e
+        norm = lambda x: x.lower().replace("-", "_")
+        if e not in PROP_PYTHON_SPECIFIC and norm(e) in {norm(x) for x in PROP_PYTHON_SPECIFIC}:
+            # another SPELLING of a Python-specific codec ("IDNA", "Unicode-Escape"): not a real character encoding, so outside the
+            # property; whether the declaration is blanked or names it verbatim is free (free-behaviour round)
+            ctx.count("free:python-specific-codec-in-another-spelling")
+            continue
         case = {"op": "subst-charset", "eventual_encoding": e}
         batch.ask("subst-charset", f"subcs {tok(e)}", tok(real), case, want=tok(want))
         if real != want:
